@@ -7,6 +7,7 @@ CONSTANTS
   Kinds = {}
   RestartResizes = TRUE
   AnonModes = {}
+  Faults = TRUE
   AllowWindow = FALSE
   EmitEdges = FALSE
 INVARIANTS TInv
